@@ -329,3 +329,9 @@ Definition audit_line_fate (type_of : str -> option N) (l : str) : line_fate :=
        | POk m => LPushed m
        | r => LStops r
        end.
+
+(* the parser as the oracle [parse] of Model/AuditProc.v / Model/AuditIR.v: Some = the message pushed to the
+   reassembler, None = ParseLogLine returned an error.  Meaningful for lines inside the modelled domain only
+   (parse_log_line l <> PUnmodelled): the theorems that use it say so. *)
+Definition parse_opt (type_of : str -> option N) (l : str) : option amsg :=
+  match parse_log_line type_of l with POk m => Some m | _ => None end.
